@@ -45,7 +45,7 @@ VOC_ASSUME = ["pulse response measured in periodic steady state (F0 = 20 Hz, fra
 prop(
     "C06",
     "exploration",
-    "cases = random mel-cepstra (4 decay profiles, order 2..40, scaled to a spectral-shape magnitude in (0,2] nepers) x alpha in {0} U [0,0.6] x 6 sampling rates; gain c0 in [-20,12] in a third of the cases; measured on 65 or 257 harmonics in steady state AND on the response to the very first pulse (first frame); plus the exp(c0) gain law over steps of up to +-12 nepers; non-trivial = shape >= 0.5 neper and order >= 3; distinct by (order, alpha bucket, rate)",
+    "cases = random mel-cepstra (4 decay profiles, order 2..40, scaled to a spectral-shape magnitude in (0,2] nepers) x alpha in {0, 1e-6, 1e-3 .. 9.9e-3, 0.6} U [0,0.6] x sampling rates (6 common ones and random multiples of 20 in 8k..96k); gain corners c0 = 0 and b0 = c0 - alpha b1 = 0 exactly; gain c0 in [-20,12] in a third of the cases; measured on 65 or 257 harmonics in steady state AND on the response to the very first pulse (first frame); plus the exp(c0) gain law over steps of up to +-12 nepers; non-trivial = shape >= 0.5 neper and order >= 3; distinct by (order, alpha bucket, rate)",
     [st("checked")],
     [st("checked"), st("release")],
     VOC_ASSUME,
@@ -79,7 +79,7 @@ prop(
 prop(
     "C05",
     "exploration",
-    "cases = random streams (1..60 states, durations 1..8, vector length 1..4, variances in [0.05,3], 6 voicing-pattern classes incl. all-unvoiced and 1-2 frame islands at the edges, 5 window sets incl. width-5) through the public MlpgAdjust with gv=None; every voiced island x vector index is checked against the dense normal equations of the definition (relative residual <= 1e-10 and agreement with Gaussian elimination <= 1e-8); non-trivial = island of >= 3 frames with >= 1 active dynamic row; distinct by (window set, pattern class, vector length, island-length profile)",
+    "cases = random streams (1..60 states, durations 1..8, vector length 1..4, variances in [0.05,3], 6 voicing-pattern classes incl. all-unvoiced and 1-2 frame islands at the edges, 9 window sets incl. width-5, zero-centre and zero-ended rows, widest window not last) through the public MlpgAdjust with gv=None; every voiced island x vector index is checked against the dense normal equations of the definition (relative residual <= 1e-10 and agreement with Gaussian elimination <= 1e-8); non-trivial = island of >= 3 frames with >= 1 active dynamic row; distinct by (window set, pattern class, vector length, island-length profile)",
     [st("checked")],
     [st("checked"), st("release")],
 )
@@ -102,7 +102,7 @@ prop(
 prop(
     "C04",
     "exploration",
-    "voices = the bundled voice (every corpus line in the thorough tier, a slice in quick, plus field-recombined labels) and generated voices over {1..7 states, 2/3 streams, vector lengths, 5 window sets, tree depth 0..4 incl. single-leaf trees, quoted/unquoted/mixed leaf names, questions sampled from the bundled voice's 783 questions incl. the 3 regex-fallback ones forced at the root}; for every (label, state, model in duration/streams/GV) the Gaussians returned by the public Model API must be bit-equal to the float32 entries selected by the independent reader's tree walk with the wildcard matcher; header fields, options, window coefficients and engine defaults compared exactly; non-trivial = a lookup that traverses >= 2 internal nodes with >= 1 'yes'; distinct by (voice, model, tree, leaf)",
+    "voices = the bundled voice (every corpus line in the thorough tier, a slice in quick, plus field-recombined labels) and generated voices over {1..7 states, 2/3 streams, vector lengths, 9 window sets, trees in ascending or descending state order, -0.0 means, ALPHA also outside [0,1], tree depth 0..4 incl. single-leaf trees, quoted/unquoted/mixed leaf names, questions sampled from the bundled voice's 783 questions incl. the 3 regex-fallback ones forced at the root}; for every (label, state, model in duration/streams/GV) the Gaussians returned by the public Model API must be bit-equal to the float32 entries selected by the independent reader's tree walk with the wildcard matcher; header fields, options, window coefficients and engine defaults compared exactly; non-trivial = a lookup that traverses >= 2 internal nodes with >= 1 'yes'; distinct by (voice, model, tree, leaf)",
     [st("checked")],
     [st("checked"), st("asan", name="asan", args=["--sub", "synthetic", "--scale", "0.25"], env=ASAN_ENV, canary="asan", death_is_violation=True)],
     ["gamma stage and log-gain flag of the engine are read from Condition's Debug output (no public getter)", "generator ground truth and independent reader are cross-checked for every generated voice"],
